@@ -154,14 +154,40 @@ impl World {
                 let name = path.rsplit('/').next().unwrap().to_string();
                 let fo = FileOffset::new(f, 4096 * r.below(2));
                 #[cfg(not(feature = "xen"))]
-                let reg = MmapRegion::<()>::from_file(fo, len).unwrap();
+                let reg = if r.chance(1, 3) {
+                    vm_memory::mmap::MmapRegionBuilder::<()>::new(len)
+                        .with_file_offset(fo)
+                        .with_hugetlbfs(true)
+                        .with_mmap_prot(libc::PROT_READ | libc::PROT_WRITE)
+                        .with_mmap_flags(libc::MAP_NORESERVE | libc::MAP_SHARED)
+                        .build()
+                        .unwrap()
+                } else {
+                    MmapRegion::<()>::from_file(fo, len).unwrap()
+                };
                 #[cfg(feature = "xen")]
                 let reg = MmapRegion::<()>::from_range(vm_memory::MmapRange::new_unix(len, Some(fo), GuestAddress(start))).unwrap();
                 (reg, RKind::File(name))
             }
             _ => {
+                // through the builder with its optional settings (hugetlbfs hint, explicit
+                // protection / flags) as well as through the plain constructor
                 #[cfg(not(feature = "xen"))]
-                let reg = MmapRegion::<()>::new(len).unwrap();
+                let reg = match r.below(4) {
+                    0 => MmapRegion::<()>::new(len).unwrap(),
+                    1 => vm_memory::mmap::MmapRegionBuilder::<()>::new(len).with_hugetlbfs(true).with_mmap_prot(libc::PROT_READ | libc::PROT_WRITE).build().unwrap(),
+                    2 => vm_memory::mmap::MmapRegionBuilder::<()>::new(len)
+                        .with_hugetlbfs(false)
+                        .with_mmap_prot(libc::PROT_READ | libc::PROT_WRITE)
+                        .with_mmap_flags(libc::MAP_ANONYMOUS | libc::MAP_PRIVATE | libc::MAP_NORESERVE)
+                        .build()
+                        .unwrap(),
+                    _ => {
+                        let mut m = MmapRegion::<()>::new(len).unwrap();
+                        m.set_hugetlbfs(true);
+                        m
+                    }
+                };
                 #[cfg(feature = "xen")]
                 let reg = MmapRegion::<()>::from_range(vm_memory::MmapRange::new_unix(len, None, GuestAddress(start))).unwrap();
                 (reg, RKind::Anon)
@@ -191,6 +217,17 @@ impl World {
                 if n != want {
                     v("create/mapping-count", jobj! {"step" => step, "region" => *id, "mmaps_at_addr" => n});
                     ok = false;
+                }
+                // what is mapped is what is later unmapped: the mapping's length is the region's
+                if ri.kind != RKind::Raw {
+                    for e in log {
+                        if let Ev::Mmap { ret, len, errno: 0, .. } = e {
+                            if *ret == ri.addr && *len != ri.len {
+                                v("create/mapped-length-differs-from-region-length", jobj! {"step" => step, "region" => *id, "mapped" => *len, "region_len" => ri.len});
+                                ok = false;
+                            }
+                        }
+                    }
                 }
             }
             let mut unmaps: Vec<(usize, usize)> = log.iter().filter_map(|e| if let Ev::Munmap { addr, len, ret: 0, .. } = e { Some((*addr, *len)) } else { None }).collect();
